@@ -213,8 +213,10 @@ def random_action(rng, n_insts):
         return ("decode", rng.randrange(n_insts))
     if r < 0.52:
         return ("edit", rng.randrange(n_insts), None)
-    if r < 0.8:
+    if r < 0.74:
         return ("add", rng.randrange(n_insts))
+    if r < 0.82:
+        return ("move", rng.randrange(n_insts))
     return ("remove", rng.randrange(n_insts), None)
 
 
@@ -224,7 +226,9 @@ def scripted_plans():
     return [[("construct", 2), ("decode", 0), ("edit", 1, 0), ("decode", 0), ("edit", 3, 1), ("add", 2), ("decode", 0), ("remove", 5, 0), ("edit", 6, 0)],
             # a list handed from one block to another (or to two blocks), then each block edited on its own
             [("construct", 2), ("construct", None), ("assign", 1, 0, "getter"), ("add", 0), ("add", 1), ("remove", 0, 0), ("add", 1)],
-            [("construct", 1), ("construct", None), ("construct", 2), ("assign", 1, 2, "one-list"), ("add", 2), ("remove", 1, 0), ("add", 1), ("add", 0)]]
+            [("construct", 1), ("construct", None), ("construct", 2), ("assign", 1, 2, "one-list"), ("add", 2), ("remove", 1, 0), ("add", 1), ("add", 0)],
+            # an item taken OUT of a decoded block stays in use: it moves to another block, the same bytes are decoded again, the moved item is edited
+            [("construct", 2), ("decode", 0), ("remove", 1, 0), ("move", 0), ("decode", 0), ("edit", 0, 2), ("decode", 0), ("edit", 3, 0), ("edit", 0, 2), ("edit", 5, 0)]]
 
 
 def one_run(ctx, kind, rng, plan=None, steps=0):
@@ -233,6 +237,7 @@ def one_run(ctx, kind, rng, plan=None, steps=0):
     caller_lists = []
     streams = []          # kept alive: a decoder that borrowed the stream's buffer keeps borrowing it
 
+    removed_items = []    # items taken out of a block that the caller still holds
     alive = []            # every registered object stays alive: `ids` is keyed by id(), and the id of a dead object is reused by new ones
 
     def reg(o):
@@ -356,13 +361,29 @@ def one_run(ctx, kind, rng, plan=None, steps=0):
                     it.label = f"a{nid[0]}"
                 add(kind, insts[i], it)
                 ops.append([Sym("add"), i, reg(it)])
+            elif act[0] == "move":
+                # an item that was removed from some block earlier is still in the caller's hands: it goes into another block
+                if not removed_items:
+                    continue
+                it = removed_items.pop()
+                i = act[1]
+                if any(o is it for o in items_of(kind, insts[i])):
+                    continue
+                if kind == "emg":
+                    it.label = f"m{nid[0]}"
+                    nid[0] += 1
+                add(kind, insts[i], it)
+                ops.append([Sym("add"), i, ids[id(it)]])
             else:
                 i = act[1]
                 n = len(items_of(kind, insts[i]))
                 if n == 0:
                     continue
                 k = act[2] if act[2] is not None else rng.randrange(n)
+                gone = items_of(kind, insts[i])[k]
                 remove(kind, insts[i], k)
+                if id(gone) in ids and not any(o is gone for b2 in insts for o in items_of(kind, b2)):
+                    removed_items.append(gone)
                 ops.append([Sym("remove"), i, k])
         except Exception as e:
             ctx.fail(f"{kind}: a valid construct/decode/add/remove/edit raised {type(e).__name__}: {str(e)[:80]}", dict(kind=kind, frames=N, ops=[str(o) for o in ops]), ident=f"{kind} operation raises")
